@@ -3,6 +3,7 @@
    message-level round trip, "no spurious truncation", panic-freedom of whole RR operations)
    is listed in docs/C12.md and is decided on every run by the extracted specification
    (Spec/MsgWriterS.v) evaluated on the implementation's output. *)
+From QV Require Import Spec.MsgWriterS.
 From QV Require Import Base.ListX Model.MsgWriter Proofs.MsgWriterP Proofs.MsgWriterScanP
      Proofs.MsgWriterNameP Proofs.MsgWriterInvP Proofs.MsgWriterTopP.
 
@@ -79,6 +80,14 @@ Example c12_example :
   | _ => False
   end.
 Proof. vm_compute. split; reflexivity. Qed.
+
+(* The extracted specification accepts the model's result for this run (the oracle is not vacuous). *)
+Example c12_judge_example :
+  match run_writer (repeat 170%N 64) 64 ex_ops with
+  | Ok rr => judge 64 64 ex_ops (rr_outcomes rr) (rr_regs rr) (rr_final rr) = VOk
+  | _ => False
+  end.
+Proof. vm_compute. reflexivity. Qed.
 
 Print Assumptions c12_invariant.
 Print Assumptions c12_limit.
